@@ -57,7 +57,7 @@ def _run_replayer(bindir, args, files, timeout):
 
 
 def replay_step(res, family, kinds=None, modes="base", profile="release", backend=None, threads=None,
-                variant=None, timeout=3000, files=None, label=None, big=False):
+                variant=None, timeout=3000, files=None, label=None, big=False, baseline=False, promote=False):
     """Replay a cached family through the real parser.  variant = dict(extra_rustflags, env, subdir, features)"""
     if files is None:
         path, meta = families.family_file(family)
@@ -119,6 +119,19 @@ def replay_step(res, family, kinds=None, modes="base", profile="release", backen
     for t, n in summ["tags"].items():
         if t != res.prop:
             res.other_tags[t] = res.other_tags.get(t, 0) + n
+    if baseline:
+        # disagreements with the specification that the reference build shows as well
+        res.baseline_mismatches = getattr(res, "baseline_mismatches", set()) | {(m["vector"], m["prop"]) for m in mism}
+    if promote:
+        # this run differs from the reference build only in backend / build variant / profile:
+        # a disagreement with the specification that the reference build does not show is a
+        # dependence of the result on that difference
+        base = getattr(res, "baseline_mismatches", set())
+        for m in mism:
+            if m["prop"] != res.prop and m["prop"] not in ("C19",) and (m["vector"], m["prop"]) not in base:
+                m2 = dict(m, prop=res.prop, msg="only in this backend/build variant (%s): %s" % (lab, m["msg"]))
+                mism.append(m2)
+                summ["tags"][res.prop] = summ["tags"].get(res.prop, 0) + 1
     mine = [m for m in mism if m["prop"] == res.prop]
     for m in mine[:20]:
         res.violation("%s [%s, %s]" % (m["msg"], m["entry"], m["context"]),
